@@ -61,8 +61,8 @@ static inline uint64_t call_fn(void *fn, std::initializer_list<uint64_t> a)
         int n = 0;
         for (uint64_t x : a) v[n++] = x;
         if (g_invoke) return g_invoke(fn, v, n);
-        typedef uint64_t (*f6)(uint64_t, uint64_t, uint64_t, uint64_t, uint64_t, uint64_t);
-        return ((f6) fn)(v[0], v[1], v[2], v[3], v[4], v[5]);
+        typedef uint64_t (*f10)(uint64_t, uint64_t, uint64_t, uint64_t, uint64_t, uint64_t, uint64_t, uint64_t, uint64_t, uint64_t);
+        return ((f10) fn)(v[0], v[1], v[2], v[3], v[4], v[5], v[6], v[7], v[8], v[9]);
 }
 
 // ---------------------------------------------------------------- host CPU
